@@ -248,7 +248,7 @@ def run(ctx, replay=None):
         "duplicate ACKs are delivered only while data is outstanding; no ACK below last_ack or above next_seq is delivered",
         "CUBIC: the epoch state (W_last_max, epoch_start, origin_point, d_min, W_tcp, K, ack_cnt, cwnd_cnt, cnt) is public and "
         "bound to the published algorithm (C = 0.4, beta = 0.2) as the class applies it to cwnd in bytes; the cube is enclosed "
-        "from 2^-8 s roundings, cnt is compared in 1/16 capped at 2^20; the branch that needs a cube root (cwnd < W_last_max) "
+        "from 2^-12 s (above 8 s: 2^-8 s) roundings of the elapsed time, cnt is compared in 1/16 capped at 2^20; the branch that needs a cube root (cwnd < W_last_max) "
         "is unreachable from the defaults because no rule of the property sets W_last_max"])
 
 
